@@ -39,7 +39,7 @@ Lemma Reqb_ROps a b : (@eqb R ROps a b) = Reqb a b.
 Proof. reflexivity. Qed.
 
 (** ** the plane of [contact_plane] *)
-Theorem contact_plane_unit X1 X2 e1 e2 E1 E2 pl :
+Theorem contact_plane_unit (X1 X2 : @M4 R) (e1 e2 : V4R) (E1 E2 : R) (pl : V4R) :
   contact_plane X1 X2 e1 e2 E1 E2 = (pl, false) -> dot (xyz pl) (xyz pl) = 1.
 Proof.
   unfold contact_plane. remember (v4sub (vecmat4 (v4scale e1 E1) X1) (vecmat4 (v4scale e2 E2) X2)) as raw eqn:Hraw. set (nrm := norm (xyz raw)).
@@ -53,7 +53,7 @@ Proof.
   rewrite <- Hsq. field. exact Hz.
 Qed.
 
-Theorem contact_plane_equal_pressure X1 X2 e1 e2 E1 E2 pl :
+Theorem contact_plane_equal_pressure (X1 X2 : @M4 R) (e1 e2 : V4R) (E1 E2 : R) (pl : V4R) :
   contact_plane X1 X2 e1 e2 E1 E2 = (pl, false) ->
   forall x, dot (xyz pl) x = c3 pl <-> pressure X1 e1 E1 x = pressure X2 e2 E2 x.
 Proof.
@@ -79,7 +79,7 @@ Proof.
 Qed.
 
 (** the same-tetrahedron flag is raised exactly when the two pressure gradients coincide *)
-Theorem contact_plane_same_iff X1 X2 e1 e2 E1 E2 :
+Theorem contact_plane_same_iff (X1 X2 : @M4 R) (e1 e2 : V4R) (E1 E2 : R) :
   snd (contact_plane X1 X2 e1 e2 E1 E2) = true <->
   xyz (vecmat4 (v4scale e1 E1) X1) = xyz (vecmat4 (v4scale e2 E2) X2).
 Proof.
@@ -121,17 +121,26 @@ Proof.
     + pose proof (sqr_nonneg c). nra.
 Qed.
 
+Lemma plane_basis_cases (a b c : R) :
+  plane_basis_from_normal (V a b c) =
+  if Rleb (Rabs b) (Rabs a) then
+    let len := sqrt (a * a + c * c) in
+    (V (- c / len) 0 (a / len), V (b * (a / len)) (c * (- c / len) - a * (a / len)) (- b * (- c / len)))
+  else
+    let len := sqrt (b * b + c * c) in
+    (V 0 (c / len) (- b / len), V (b * (- b / len) - c * (c / len)) (- a * (- b / len)) (a * (c / len))).
+Proof. reflexivity. Qed.
+
 Theorem plane_basis_orth (n : V3R) : n <> vzero ->
   let '(x, y) := plane_basis_from_normal n in
   dot n x = 0 /\ dot n y = 0 /\ dot x y = 0.
 Proof.
   intros Hn. pose proof (basis_len_pos n Hn) as Hl.
-  unfold plane_basis_from_normal, basis_len in *. rewrite Rleb_ROps.
-  destruct n as [a b c]. cbn [vx vy vz] in *.
-  destruct (Rleb (Rabs b) (Rabs a)).
-  - set (len := sqrt (a * a + c * c)) in *. cbn [sqrt ROps]. fold len.
+  unfold basis_len in *. destruct n as [a b c]. rewrite plane_basis_cases. cbn [vx vy vz] in *.
+  destruct (Rleb (Rabs b) (Rabs a)); cbv zeta.
+  - set (len := sqrt (a * a + c * c)) in *.
     unfold dot. cbn [vx vy vz add sub mul div opp zero ROps]. repeat split; field; lra.
-  - set (len := sqrt (b * b + c * c)) in *. cbn [sqrt ROps]. fold len.
+  - set (len := sqrt (b * b + c * c)) in *.
     unfold dot. cbn [vx vy vz add sub mul div opp zero ROps]. repeat split; field; lra.
 Qed.
 
@@ -144,10 +153,10 @@ Proof.
   assert (Hn : n <> vzero).
   { intros ->. unfold dot, vzero in H1. cbn [vx vy vz add mul zero ROps] in H1. lra. }
   pose proof (basis_len_pos n Hn) as Hl.
-  unfold plane_basis_from_normal, basis_len in *. rewrite Rleb_ROps.
-  destruct n as [a b c]. unfold dot in H1. cbn [vx vy vz add mul ROps] in *.
-  destruct (Rleb (Rabs b) (Rabs a)).
-  - set (len := sqrt (a * a + c * c)) in *. cbn [sqrt ROps]. fold len.
+  unfold basis_len in *. destruct n as [a b c]. rewrite plane_basis_cases.
+  unfold dot in H1. cbn [vx vy vz add mul ROps] in *.
+  destruct (Rleb (Rabs b) (Rabs a)); cbv zeta.
+  - set (len := sqrt (a * a + c * c)) in *.
     assert (Hsq : len * len = a * a + c * c).
     { unfold len. apply sqrt_sqrt. pose proof (sqr_nonneg a). pose proof (sqr_nonneg c). lra. }
     unfold dot, cross. cbn [vx vy vz add sub mul div opp zero ROps]. repeat split.
@@ -155,11 +164,10 @@ Proof.
     + transitivity ((b * b * (a * a + c * c) + (a * a + c * c) * (a * a + c * c)) / (len * len)); [field; lra|].
       rewrite <- Hsq. transitivity (b * b + len * len); [field; lra|]. rewrite Hsq. lra.
     + f_equal.
-      * transitivity (a * (b * b + (a * a + c * c)) / (len * len) - a * (b * b) / (len * len) + (a - a * (a * a + c * c) / (len * len))); [field; lra|].
-        rewrite <- Hsq. field. lra.
+      * transitivity (a * (a * a + c * c) / (len * len)); [field; lra|]. rewrite <- Hsq. field. lra.
       * transitivity (b * (a * a + c * c) / (len * len)); [field; lra|]. rewrite <- Hsq. field. lra.
       * transitivity (c * (a * a + c * c) / (len * len)); [field; lra|]. rewrite <- Hsq. field. lra.
-  - set (len := sqrt (b * b + c * c)) in *. cbn [sqrt ROps]. fold len.
+  - set (len := sqrt (b * b + c * c)) in *.
     assert (Hsq : len * len = b * b + c * c).
     { unfold len. apply sqrt_sqrt. pose proof (sqr_nonneg b). pose proof (sqr_nonneg c). lra. }
     unfold dot, cross. cbn [vx vy vz add sub mul div opp zero ROps]. repeat split.
@@ -193,19 +201,19 @@ Theorem halfplane_is_face (x y pp : V3R) (Xi : V4R) (h : HP R) (q : V2R) :
   hp_row x y pp Xi = Some h ->
   cross2d (hdir h) (v2sub q (hp h)) = bary_row Xi (project_point x y pp q).
 Proof.
-  unfold hp_row. set (n2d := mkV2 _ _). set (nrm := norm2d n2d).
+  destruct Xi as [a b c w], x as [x1 x2 x3], y as [y1 y2 y3], pp as [p1 p2 p3], q as [u v].
+  unfold hp_row, norm2d, xyz, dot. cbn [c0 c1 c2 c3 vx vy vz px py].
+  cbn [add sub mul div opp sqrt ROps].
+  set (nx := a * x1 + b * x2 + c * x3). set (ny := a * y1 + b * y2 + c * y3).
+  set (ds := - w - (a * p1 + b * p2 + c * p3)). set (nrm := R_sqrt.sqrt (nx * nx + ny * ny)).
   destruct (EPSILON <? nrm)%o eqn:Hn; [|discriminate]. intros H. injection H as <-.
   assert (Hpos : 0 < nrm).
   { apply Rltb_true in Hn. unfold EPSILON in Hn. cbn [cst ROps] in Hn.
     assert (0 < Q2R (1 # 4503599627370496)) by (unfold Q2R; simpl; lra). lra. }
-  assert (Hsq : nrm * nrm = px n2d * px n2d + py n2d * py n2d).
-  { unfold nrm, norm2d. cbn [sqrt add mul ROps]. apply sqrt_sqrt.
-    pose proof (sqr_nonneg (px n2d)). pose proof (sqr_nonneg (py n2d)). lra. }
-  unfold bary_row, aff, cross2d, v2sub, project_point. cbn [hp hdir px py].
-  destruct Xi as [a b c w], x as [x1 x2 x3], y as [y1 y2 y3], pp as [p1 p2 p3], q as [u v].
-  unfold xyz, dot in *. cbn [c0 c1 c2 c3 vx vy vz px py add sub mul div opp ROps] in *.
-  set (nx := a * x1 + b * x2 + c * x3) in *. set (ny := a * y1 + b * y2 + c * y3) in *.
-  set (ds := - w - (a * p1 + b * p2 + c * p3)) in *.
+  assert (Hsq : nrm * nrm = nx * nx + ny * ny).
+  { unfold nrm. apply sqrt_sqrt. pose proof (sqr_nonneg nx). pose proof (sqr_nonneg ny). lra. }
+  unfold bary_row, aff, cross2d, v2sub, project_point, xyz, dot.
+  cbn [hp hdir px py c0 c1 c2 c3 vx vy vz add sub mul div opp ROps].
   transitivity (nx * u + ny * v - ds * ((nx * nx + ny * ny) / (nrm * nrm))); [field; lra|].
   rewrite <- Hsq. unfold nx, ny, ds. field. lra.
 Qed.
